@@ -141,13 +141,22 @@ class C01:
             pars.append(lw.Parameter(vals[-1]) if rng.random() < 0.7 else None)
             return len(vals) - 1
 
+        def lossval():
+            # loss= argument of bs/ps: None (no element), or a Parameter - possibly exactly 0 when the component
+            # is added (the loss elements must exist all the same and follow later updates)
+            if rng.random() < 0.5:
+                return None
+            vals.append(rng.choice([0.0, 0.0, rng.uniform(0.05, 0.9)]))
+            pars.append(lw.Parameter(vals[-1]))
+            return len(vals) - 1
+
         for _ in range(rng.randint(2, 7)):
             k = rng.choice(["bs", "bs", "ps", "ps", "loss"])
             if k == "bs":
                 a, b = rng.sample(range(n), 2)
-                ops.append(("bs", a, b, rng.choice(["Rx", "H"]), val(0.05, 0.95)))
+                ops.append(("bs", a, b, rng.choice(["Rx", "H"]), lossval(), val(0.05, 0.95)))
             elif k == "ps":
-                ops.append(("ps", rng.randrange(n), val(-3.0, 3.0)))
+                ops.append(("ps", rng.randrange(n), lossval(), val(-3.0, 3.0)))
             else:
                 ops.append(("loss", rng.randrange(n), val(0.05, 0.9)))
 
@@ -163,9 +172,9 @@ class C01:
                 if j == split and split > 0:
                     c.add(sub, 0, group=rng.random() < 0.5)
                 if o[0] == "bs":
-                    tgt.bs(o[1], o[2], reflectivity=arg(o[4]), convention=o[3])
+                    tgt.bs(o[1], o[2], reflectivity=arg(o[5]), convention=o[3], **({} if o[4] is None else {"loss": arg(o[4])}))
                 elif o[0] == "ps":
-                    tgt.ps(o[1], arg(o[2]))
+                    tgt.ps(o[1], arg(o[3]), **({} if o[2] is None else {"loss": arg(o[2])}))
                 else:
                     tgt.loss(o[1], arg(o[2]))
             if split == len(ops) and split > 0:
@@ -177,21 +186,28 @@ class C01:
             for o in ops:
                 E = np.eye(n, dtype=complex)
                 if o[0] == "bs":
-                    a, b, r = o[1], o[2], values[o[4]]
+                    a, b, r = o[1], o[2], values[o[5]]
                     c_, s_ = math.sqrt(r), math.sqrt(1 - r)
                     if o[3] == "Rx":
                         E[a, a], E[a, b], E[b, a], E[b, b] = c_, 1j * s_, 1j * s_, c_
                     else:
                         E[a, a], E[a, b], E[b, a], E[b, b] = c_, s_, s_, -c_
+                    if o[4] is not None:
+                        D = np.eye(n, dtype=complex)
+                        D[a, a] = D[b, b] = math.sqrt(1 - values[o[4]])
+                        E = D @ E
                 elif o[0] == "ps":
-                    E[o[1], o[1]] = np.exp(1j * values[o[2]])
+                    E[o[1], o[1]] = np.exp(1j * values[o[3]])
+                    if o[2] is not None:
+                        E[o[1], o[1]] *= math.sqrt(1 - values[o[2]])
                 else:
                     E[o[1], o[1]] = math.sqrt(1 - values[o[2]])
                 U = E @ U
             return U
 
         c = build()
-        nloss = sum(1 for o in ops if o[0] == "loss")
+        nloss = sum(1 for o in ops if o[0] == "loss") + sum(2 for o in ops if o[0] == "bs" and o[4] is not None) \
+            + sum(1 for o in ops if o[0] == "ps" and o[2] is not None)
         old = list(vals)
 
         def check(circ, values, what):
@@ -212,8 +228,8 @@ class C01:
         new = list(vals)
         for i, p in enumerate(pars):
             if p is not None:
-                o = next(x for x in ops if x[-1] == i)
-                new[i] = rng.uniform(0.05, 0.95) if o[0] in ("bs", "loss") else rng.uniform(-3.0, 3.0)
+                is_phase = any(x[0] == "ps" and x[3] == i for x in ops)
+                new[i] = rng.uniform(-3.0, 3.0) if is_phase else rng.uniform(0.05, 0.95)
                 p.set(new[i])
         return (check(c, new, "after the parameters were updated (a frozen and a plain copy had been taken)")
                 or check(plain, new, "plain copy after the update")
